@@ -121,7 +121,7 @@ func ToScalar(tv *pb.TypedValue) (interface{}, error) {
 		for x, e := range elems {
 			v, err := ToScalar(e)
 			if err != nil {
-				return nil, fmt.Errorf("ToScalar for ScalarArray %+v: %v", e.Value, err)
+				return nil, fmt.Errorf("ToScalar for ScalarArray %+v: %v", e.GetValue(), err)
 			}
 			ss[x] = v
 		}
@@ -149,7 +149,7 @@ func ToScalar(tv *pb.TypedValue) (interface{}, error) {
 		}
 		return uVal, nil
 	default:
-		return nil, fmt.Errorf("non-scalar type %+v", tv.Value)
+		return nil, fmt.Errorf("non-scalar type %+v", tv.GetValue())
 	}
 	return i, nil
 }
